@@ -348,7 +348,6 @@ def json_mode(ctx: Ctx, I: Interp) -> None:
     fn = prog.function(CORE, "_render_tag_or_taglist")
     cfg = Config()
     cfg.opaque_all = True
-    cfg.loop_effects = False
 
     def mk(run: Any):
         x = SObj("x", {"TAG", "TAGLIST"})
@@ -369,6 +368,34 @@ def json_mode(ctx: Ctx, I: Interp) -> None:
         appended = "join" in txt
         ctx.check(appended == (mode == "json"), "C13.mode", f"serialised dependencies are appended iff the mode is 'json' (mode {mode})", where,
                   f"mode {mode}: returns {short(l.value)}", f"in mode {mode!r} the serialised dependencies are {'not ' if mode == 'json' else ''}appended to str(x)")
+        if mode == "json" and appended:
+            ok = False
+            src = None
+            joins = [f for f in l.value.frags if f.kind == "OP" and isinstance(f.a, tuple) and f.a[0] == "join" and isinstance(f.b, dict)] if isinstance(l.value, SStr) else []
+            srcs = [f.b.get("over") if f.b.get("over") is not None else f.b.get("seq") for f in joins] + [o.base for o in _lists(l) if o.mode == "map" and o.base is not None]
+            from ..loopbuilt import contributions, iter_base
+            srcs2 = []
+            for src in srcs:
+                if isinstance(src, SList) and src.mode != "map":
+                    cs = contributions(l, src)
+                    if cs and all(c["how"] == "append" and c["loop"] is not None for c in cs):
+                        srcs2 += [iter_base(c["iter"]) for c in cs]
+                        continue
+                srcs2.append(src)
+            srcs = srcs2
+            for src in srcs:
+                io = src.meta.get("item_of") if isinstance(src, SObj) else None
+                c = (io[0].meta.get("call") if io is not None and isinstance(io[0], SObj) else None) or {}
+                if io is not None and io[1] == "dependencies" and (c.get("name") == "render" or getattr(c.get("func"), "qual", "").endswith(".render")):
+                    ok = True
+                else:
+                    ok = False
+                    break
+            ctx.check(ok and bool(srcs), "C13.mode", "the dependencies serialised in json mode are exactly those of the rendering result (rendered['dependencies'])", where,
+                      f"serialises the elements of {short(src)}",
+                      f"in json mode the serialised dependencies are taken from {short(src)}, not from the dependency list of the rendering that produced the markup: "
+                      f"dependencies that only appear after tagify() (widgets) are never serialised, so post-processing with HTMLTextDocument loses them",
+                      witness="str(div(Widget())) in json mode, Widget().tagify() returning a tag with a dependency")
     ctx.require(seen == {"json", "default"}, "_render_tag_or_taglist does not branch on the render mode")
 
 
